@@ -63,13 +63,51 @@ class ClassInfo:
         return "%s:%d" % (self.module.rel, self.node.lineno)
 
 
+def _is_literal(e):
+    return isinstance(e, ast.Constant) or (isinstance(e, ast.UnaryOp) and isinstance(e.op, (ast.USub, ast.UAdd))
+                                           and isinstance(e.operand, ast.Constant))
+
+
+def canon_eq(a, b, op="=="):
+    """Canonical text of `a == b` for two expression texts (same order rule as canonicalise)."""
+    def lit(t):
+        try:
+            return _is_literal(ast.parse(t, mode="eval").body)
+        except SyntaxError:
+            return False
+    la, lb = lit(a), lit(b)
+    if la and not lb:
+        a, b = b, a
+    elif la == lb and a > b:
+        a, b = b, a
+    return "%s %s %s" % (a, op, b)
+
+
+def canonicalise(tree):
+    """Order the operands of every two-operand ==/!= comparison canonically (a literal goes to the right,
+    otherwise the operand with the smaller canonical text goes left), so that rules do not depend on the
+    operand order a programmer happened to choose. Positions are kept."""
+    for n in ast.walk(tree):
+        if isinstance(n, ast.Compare) and len(n.ops) == 1 and isinstance(n.ops[0], (ast.Eq, ast.NotEq)):
+            l, r = n.left, n.comparators[0]
+            lc, rc = _is_literal(l), _is_literal(r)
+            swap = False
+            if lc and not rc:
+                swap = True
+            elif lc == rc:
+                swap = ast.unparse(l) > ast.unparse(r)
+            if swap:
+                n.left, n.comparators = r, [l]
+    return tree
+
+
 class Module:
     def __init__(self, rel, path, text):
         self.rel = rel
         self.path = path
         self.text = text
         self.lines = text.split("\n")
-        self.tree = ast.parse(text, filename=str(path))
+        self.tree = canonicalise(ast.parse(text, filename=str(path)))
         self.stem = Path(rel).stem
         for parent in ast.walk(self.tree):
             for child in ast.iter_child_nodes(parent):
